@@ -2,6 +2,7 @@ package props
 
 import (
 	"fmt"
+	"go/constant"
 	"go/token"
 	"go/types"
 	"sort"
@@ -209,6 +210,35 @@ func colourEdges(fn *ssa.Function) map[sx.Edge]bool {
 			out[sx.Edge{From: b, Idx: 0}] = true
 		}
 	}
+	// `painted := colorful && x; if painted {…}`: the condition is a phi that is the constant false on every edge not
+	// coming from behind a colour edge, so its true edge is taken only with colour on
+	base := map[sx.Edge]bool{}
+	for e := range out {
+		base[e] = true
+	}
+	for _, b := range fn.Blocks {
+		iff, ok := b.Instrs[len(b.Instrs)-1].(*ssa.If)
+		if !ok {
+			continue
+		}
+		ph, ok := iff.Cond.(*ssa.Phi)
+		if !ok || len(base) == 0 {
+			continue
+		}
+		all := true
+		for k, e := range ph.Edges {
+			if c, isC := e.(*ssa.Const); isC && c.Value != nil && c.Value.Kind() == constant.Bool && !constant.BoolVal(c.Value) {
+				continue
+			}
+			pred := ph.Block().Preds[k]
+			if !sx.MustPass(fn, nil, pred.Instrs[len(pred.Instrs)-1], sx.Cut{Edges: base}) {
+				all = false
+			}
+		}
+		if all {
+			out[sx.Edge{From: b, Idx: 0}] = true
+		}
+	}
 	return out
 }
 
@@ -291,6 +321,53 @@ func classifySinks(p *core.Prog, h *handlerInfo, sanitizer *ssa.Function) ([]sin
 				if tc, ok := src.(*ssa.Call); ok && (sx.CalleeName(tc) == "bytes.TrimSuffix" || sx.CalleeName(tc) == "bytes.TrimRight") && len(tc.Call.Args) == 2 {
 					if cb, ok := constBytesOf(tc.Call.Args[1]); ok && string(cb) == "\n" {
 						src, trimmed = tc.Call.Args[0], true
+					}
+				}
+				// `if n := len(x); n > 0 && x[n-1] == '\n' { x = x[:n-1] }`: x without a trailing newline, like TrimSuffix
+				if ph, ok := src.(*ssa.Phi); ok && len(ph.Edges) >= 2 {
+					var whole ssa.Value
+					var cut *ssa.Slice
+					okShape := true
+					for _, e := range ph.Edges {
+						if sl, isS := e.(*ssa.Slice); isS && sl.High != nil && sl.Low == nil {
+							if cut != nil && cut != sl {
+								okShape = false
+							}
+							cut = sl
+						} else {
+							if whole != nil && whole != e {
+								okShape = false
+							}
+							whole = e
+						}
+					}
+					if okShape && cut != nil && whole != nil && cut.X == whole {
+						nl := map[sx.Edge]bool{}
+						sx.Instrs(fn, func(i2 ssa.Instruction) {
+							b, isB := i2.(*ssa.BinOp)
+							if !isB || b.Op != token.EQL || b.Referrers() == nil {
+								return
+							}
+							if k, isC := sx.ConstInt(b.Y); !isC || k != '\n' {
+								return
+							}
+							ld, isL := b.X.(*ssa.UnOp)
+							if !isL {
+								return
+							}
+							ia, isI := ld.X.(*ssa.IndexAddr)
+							if !isI || ia.X != whole {
+								return
+							}
+							for _, u := range *b.Referrers() {
+								if iff, isIf := u.(*ssa.If); isIf {
+									nl[sx.Edge{From: iff.Block(), Idx: 0}] = true
+								}
+							}
+						})
+						if len(nl) > 0 && sx.MustPass(fn, nil, cut, sx.Cut{Edges: nl}) {
+							src, trimmed = whole, true
+						}
 					}
 				}
 				org := sx.Origins(src)
